@@ -263,6 +263,11 @@ func RunTrap(p *plan.Plan) *plan.Result {
 		beginOp(soloOpCap)
 		out0, cr0 := roomFor(def, &ref)
 		n0 := opSteps()
+		if out0.Deadlock {
+			addViol(plan.Violation{Property: "C03", Class: "C03/hang/" + step.Op, Key: "lock-left-held", Step: si,
+				Detail: fmt.Sprintf("step %d %s: the call waits for a lock that an earlier operation left held: it never returns", si, step.Op)})
+			break
+		}
 		if out0.Hang {
 			st["skipped_budget"]++
 			continue
